@@ -179,6 +179,10 @@ fn ref_time_for(pos: &str, interval: f64) -> SystemTime {
     let now = SystemTime::now();
     match pos {
         "future" => now + Duration::from_secs(100),
+        // whole seconds plus a fraction of a millisecond ahead (a tolerance that looks at the sub-second part only
+        // must not accept it), and barely ahead
+        "futurefrac" => now + Duration::from_secs(3600) + Duration::from_micros(600),
+        "futurenear" => now + Duration::from_millis(250),
         "fresh0" => now,
         // well inside / well outside 8 * interval (>= 250 ms away from the threshold; the boundary itself,
         // a set of measure zero under a real clock, is deliberately not decided)
@@ -211,7 +215,7 @@ fn class_cmd(args: &[String]) -> Value {
     let mut f = std::io::BufWriter::new(std::fs::File::create(&out).unwrap());
     let mut id = 0usize;
     for &leap in &leaps {
-        for (pos, spec_pos) in [("future", "future"), ("fresh0", "fresh"), ("fresh", "fresh"), ("freshnear", "fresh"), ("stalenear", "stale"), ("stale", "stale"), ("ancient", "stale")] {
+        for (pos, spec_pos) in [("future", "future"), ("futurefrac", "future"), ("futurenear", "future"), ("fresh0", "fresh"), ("fresh", "fresh"), ("freshnear", "fresh"), ("stalenear", "stale"), ("stale", "stale"), ("ancient", "stale")] {
             // the full leap range only with one interval; the small values with several (whole and fractional seconds)
             let intervals: &[f64] = if leap <= 8 { &[0.0, 0.1, 0.5, 1.0, 2.5, 4.0, 16.0, 1024.0] } else { &[16.0] };
             for &interval in intervals {
@@ -219,7 +223,7 @@ fn class_cmd(args: &[String]) -> Value {
                 if interval < 0.5 && (pos == "fresh0" || pos == "fresh" || pos == "freshnear") {
                     continue;
                 }
-                if (pos == "freshnear" || pos == "stalenear") && leap > 8 && leap % 97 != 0 {
+                if (pos == "freshnear" || pos == "stalenear" || pos == "futurefrac" || pos == "futurenear") && leap > 8 && leap % 97 != 0 {
                     continue;
                 }
               let mut attempts = 0;
@@ -390,6 +394,7 @@ fn replay_one(beh: &Value, tag: &str) -> (usize, usize, Vec<Value>, Option<Strin
     let mut measured_real = false;
     // bound (PHC term included) of every report handed to the updater so far, whatever its class
     let mut seen_bounds: std::collections::HashSet<i64> = std::collections::HashSet::new();
+    let mut ref_times: std::collections::HashMap<(String, u64), SystemTime> = std::collections::HashMap::new();
     let mut add = |viol: &mut Vec<Value>, p: &str, sig: &str, what: String| {
         if viol.len() < 5 {
             viol.push(json!({"property": p, "signature": sig, "what": what}));
@@ -432,7 +437,10 @@ fn replay_one(beh: &Value, tag: &str) -> (usize, usize, Vec<Value>, Option<Strin
                     // the update interval varies with the step (whole and fractional seconds); the reference time is
                     // placed relative to eight times that interval
                     let interval = [16.0, 0.5, 2.5, 1.0, 64.0][i % 5];
-                    let rt = ref_time_for(v["refPos"].as_str().unwrap(), interval);
+                    // chronyd's reference time only moves when it updates the clock: reports of one behaviour (executed
+                    // within milliseconds) in the same position and with the same update interval carry the SAME reference time
+                    let pos = v["refPos"].as_str().unwrap().to_string();
+                    let rt = *ref_times.entry((pos.clone(), (interval * 10.0) as u64)).or_insert_with(|| ref_time_for(&pos, interval));
                     // bound b ns, exactly: dispersion = b * 2^-30 s is not integral in ns; use the offset/delay/disp split
                     // b = 7812500 * k  <->  k * 2^-7 s of dispersion
                     let b = v["b"].as_i64().unwrap();
